@@ -17,6 +17,15 @@ use crate::c18::*;
 use crate::util::*;
 use std::io::Write;
 
+/// resident set size of this process in bytes (0 when /proc is unavailable)
+fn resident_bytes() -> usize {
+    std::fs::read_to_string("/proc/self/statm")
+        .ok()
+        .and_then(|s| s.split_whitespace().nth(1).and_then(|x| x.parse::<usize>().ok()))
+        .map(|p| p * 4096)
+        .unwrap_or(0)
+}
+
 fn write_file(dir: &std::path::Path, rel: &str, bytes: &[u8]) -> std::path::PathBuf {
     let p = dir.join(rel);
     if let Some(parent) = p.parent() {
@@ -167,8 +176,12 @@ pub fn run(f: &[&str]) -> Option<String> {
             let p = write_file(td.path(), "000000.win32.dat0", &b);
             let ps = p.to_str().unwrap().to_string();
             Some(guarded(move || {
-                let round = |k: usize| -> (usize, usize) {
+                // zlib-rs allocates through `std::alloc::System` directly, so the counting global
+                // allocator does not see the inflate state: the process' resident set is observed
+                // as well (pages, /proc/self/statm)
+                let round = |k: usize| -> (usize, usize, usize) {
                     let before = alloc::snapshot().live;
+                    let rss0 = resident_bytes();
                     let mut ok = 0usize;
                     for _ in 0..k {
                         if let Some(mut d) = physis::sqpack::SqPackData::from_existing(&ps) {
@@ -177,17 +190,22 @@ pub fn run(f: &[&str]) -> Option<String> {
                             }
                         }
                     }
-                    (alloc::snapshot().live.saturating_sub(before), ok)
+                    (alloc::snapshot().live.saturating_sub(before), resident_bytes().saturating_sub(rss0), ok)
                 };
-                let _ = round(2); // warm-up (lazy statics)
-                let (r1, ok1) = round(n);
-                let (r2, _) = round(4 * n);
-                if ok1 != 0 {
-                    return "leak:extraction-succeeded".into();
+                let _ = round(n); // warm-up (lazy statics, allocator arenas)
+                let (r1, s1, ok1) = round(n);
+                let (r2, s2, _) = round(4 * n);
+                if std::env::var("C18_DEBUG").is_ok() {
+                    eprintln!("leak debug live {} {} rss {} {} ok {}", r1, r2, s1, s2, ok1);
                 }
-                // residual live bytes after the failed extractions must not grow with their number
-                if r2 > r1 + 1024 && r2 >= 2 * r1 {
+                let _ = ok1; // successful extractions must not leave anything behind either
+                // residual memory after the failed extractions must not grow with their number
+                let live_grows = r2 > r1 + 1024 && r2 >= 2 * r1;
+                let rss_grows = s2 >= 3 * n * 1024 && s2 >= 2 * s1;
+                if live_grows {
                     format!("leak:{}-bytes-per-failed-extraction", (r2 - r1) / (3 * n))
+                } else if rss_grows {
+                    format!("leak:resident-set-grows-{}-bytes-per-failed-extraction", s2 / (4 * n))
                 } else {
                     "leak:none".into()
                 }
@@ -698,17 +716,17 @@ fn gen_leak(rng: &mut Rng, out: &mut dyn Write) {
         let mut b = s.bytes.clone();
         // block data starts at 128 + 16; LEN/NLEN are bytes 1..5 of the stream
         b[128 + 16 + 3] ^= 0x55;
-        writeln!(out, "leak 40 {} {}", hex(&b), off).unwrap();
+        writeln!(out, "leak 400 {} {}", hex(&b), off).unwrap();
         // truncated stream: inflate needs more input
         let mut t = s.bytes.clone();
         let cl = u32::from_le_bytes([t[128 + 8], t[128 + 9], t[128 + 10], t[128 + 11]]);
         t[128 + 8..128 + 12].copy_from_slice(&(cl - 2).to_le_bytes());
-        writeln!(out, "leak 40 {} {}", hex(&t), off).unwrap();
+        writeln!(out, "leak 400 {} {}", hex(&t), off).unwrap();
     }
     let (s, off) = model_seed(rng, 0, [1, 1, 1, 0, 0, 0, 0, 0, 1, 0, 0], Stored);
     let mut b = s.bytes.clone();
     b[256 + 16 + 3] ^= 0x55;
-    writeln!(out, "leak 25 {} {}", hex(&b), off).unwrap();
+    writeln!(out, "leak 300 {} {}", hex(&b), off).unwrap();
 }
 
 pub fn generate(thorough: bool, seed: u64, out: &mut dyn Write) {
